@@ -104,10 +104,10 @@ func fieldReads(p *core.Program) map[*types.Var]token.Pos {
 }
 
 type copyCtor struct {
-	pk   *packages.Package
-	fd   *ast.FuncDecl
+	pk    *packages.Package
+	fd    *ast.FuncDecl
 	named *types.Named
-	st   *types.Struct
+	st    *types.Struct
 }
 
 func findCopyCtors(p *core.Program) []copyCtor {
@@ -145,13 +145,13 @@ func sameNamed(t types.Type, n *types.Named) bool {
 
 // built describes how a returned value was constructed.
 type built struct {
-	all     bool            // whole struct carried (copy of receiver / positional literal)
-	opaque  string          // delegated to a call (callee name)
+	all      bool   // whole struct carried (copy of receiver / positional literal)
+	opaque   string // delegated to a call (callee name)
 	opaqueFn *types.Func
-	fields  map[string]bool // fields explicitly set
-	unknown bool
-	isNil   bool
-	pos     token.Pos
+	fields   map[string]bool // fields explicitly set
+	unknown  bool
+	isNil    bool
+	pos      token.Pos
 }
 
 func analyseCopyCtor(p *core.Program, cc copyCtor) (res []built) {
